@@ -281,6 +281,15 @@ def _realise(sc, exp, workdir, emb, extra, order, wscale, perm, want, W):
     for e_, c_ in history:
         cref.build_trees(e_, closed=c_, max_workers=1)
     out = {}
+    # every other scenario measures with the progress display on (results then pass through the Indicator wrapper)
+    progress = zlib.crc32(repr(exp["unk"]).encode()) % 4 < 2
+    from .yawenv import quiet_fds
+
+    with quiet_fds():
+        return _measure(yaw, sc, exp, want, W, cfg, cen, cref, cunk, crnd, crref, out, progress)
+
+
+def _measure(yaw, sc, exp, want, W, cfg, cen, cref, cunk, crnd, crref, out, progress):
     if "meta" in want:
         out["meta1"] = dict(keys=list(cref.keys()), num=list(cref.get_num_records()), sw=list(cref.get_sum_weights()),
                             radii=[float(x) for x in cref.get_radii().data], centers=cref.get_centers().data.tolist())
@@ -288,7 +297,7 @@ def _realise(sc, exp, workdir, emb, extra, order, wscale, perm, want, W):
                             radii=[float(x) for x in cunk.get_radii().data], centers=cunk.get_centers().data.tolist())
         out["given_centers"] = cen.data.tolist()
     if "cross" in want:
-        cfs = yaw.crosscorrelate(cfg, cref, cunk, ref_rand=crref, unk_rand=crnd, max_workers=W)
+        cfs = yaw.crosscorrelate(cfg, cref, cunk, ref_rand=crref, unk_rand=crnd, max_workers=W, progress=progress)
         out["cross"] = [cf.dd.counts.get_array().tolist() for cf in cfs]          # [scale][bin][i][j]
         out["cross_dr"] = [cf.dr.counts.get_array().tolist() for cf in cfs]
         out["cross_rd"] = [cf.rd.counts.get_array().tolist() for cf in cfs]
@@ -299,18 +308,18 @@ def _realise(sc, exp, workdir, emb, extra, order, wscale, perm, want, W):
         out["sw2"] = cfs[0].dd.sum_weights.sum_weights2.tolist()
         out["cfs"] = cfs
     if "auto" in want:
-        afs = yaw.autocorrelate(cfg, cref, cref, count_rr=False, max_workers=W)
+        afs = yaw.autocorrelate(cfg, cref, cref, count_rr=False, max_workers=W, progress=progress)
         out["auto"] = [cf.dd.counts.get_array().tolist() for cf in afs]
         out["auto_sw1"] = afs[0].dd.sum_weights.sum_weights1.tolist()
         out["afs"] = afs
     if "hist" in want:
-        h = yaw.HistData.from_catalog(cref, cfg, max_workers=W)
+        h = yaw.HistData.from_catalog(cref, cfg, max_workers=W, progress=progress)
         out["hist"] = h.data.tolist()
         out["hist_samples"] = h.samples.tolist()
     if "trees" in want:
         from yaw.catalog.trees import BinnedTrees
 
-        cref.build_trees(cfg.binning.edges, closed=cfg.binning.closed, force=True, max_workers=W)
+        cref.build_trees(cfg.binning.edges, closed=cfg.binning.closed, force=True, max_workers=W, progress=progress)
         out["trees"] = {int(pid): [(t.num_records, float(t.sum_weights)) for t in BinnedTrees(p).trees] for pid, p in cref.items()}
     return out
 
